@@ -2,6 +2,11 @@
 
 package cluster
 
+import (
+	"github.com/prometheus/client_golang/prometheus"
+	dto "github.com/prometheus/client_model/go"
+)
+
 // Export-only access for the real-peer harness (/verif/harness/peer; properties C19 and C08),
 // added to package cluster at build time with go -overlay; not part of the repository.
 // Nothing of cluster.go is restated here: the harness uses Create, AddState, Join, Leave,
@@ -36,4 +41,17 @@ func (p *Peer) VerifFailedPeers() []string {
 		out = append(out, pr.Name)
 	}
 	return out
+}
+
+// VerifOversize reports the oversize path of the channel: messages waiting in msgc, reliable
+// sends started, failed, and completed successfully (count of the duration histogram).  The
+// worker is idle iff queued == 0 and sent == failed + done.
+func (c *Channel) VerifOversize() (queued int, sent, failed float64, done uint64) {
+	var m dto.Metric
+	if h, ok := c.oversizeGossipDuration.(prometheus.Metric); ok {
+		if err := h.Write(&m); err == nil {
+			done = m.GetHistogram().GetSampleCount()
+		}
+	}
+	return len(c.msgc), counterValue(c.oversizeGossipMessageSentTotal), counterValue(c.oversizeGossipMessageFailureTotal), done
 }
